@@ -842,6 +842,8 @@ def gen_text_chunks(rng):
         return rng.choice([[], [''], []])
     if c < 0.45:
         return [text]
+    if c < 0.55 and n <= 400:
+        return list(text)           # one chunk per character
     m = rng.choice([1, 1, 2, 3, 6])
     cuts = sorted(rng.randint(0, n) for _ in range(m))
     chunks, prev = [], 0
@@ -1009,6 +1011,7 @@ def virtual_size_probe(ctx, rng):
             b = _Big(rng.randbytes(rng.randint(0, 8)))
             b.virt = s
             chunks.append(b)
+        _FakeTime.now = 0
         case = {'t': 'virt', 'sizes': sizes, 'data': [bytes(c).hex() for c in chunks]}
         ctx.case(case, nontrivial=True)
         ctx.count('unit:virtual_size')
@@ -1077,7 +1080,10 @@ def eval_case(case):
         rec['nontrivial'] = bool(data)
     elif t == 'unit':
         chunks = [bytes.fromhex(x) for x in case['chunks']]
-        rec['member'] = run_compress_unit(chunks, case['level'], case['mtime'])
+        try:
+            rec['member'] = run_compress_unit(chunks, case['level'], case['mtime'])
+        except Exception as e:
+            rec['fails'] = [('compress() raised %s: %s' % (type(e).__name__, e), 'gz:compress_raises')]
         rec['hist'] = ['unit:compress:level%d' % case['level']]
         rec['nontrivial'] = True
     return rec
